@@ -253,6 +253,17 @@ def _explore_one(job):
     t0 = time.time()
     r = S.explore(system, data, cuts)
     out = summarize(idx, sysname, mode, cuts, r)
+    # chunk presentation: the same cuts (thinned) with a re-used bytearray / with
+    # memoryview slices of a re-used read buffer must give the same verdict and
+    # leave exactly the stream's bytes in every region
+    out['typed'] = []
+    if mode == 'cand' and len(r.verdicts) == 1 and len(data) > 0:
+        (v0, _p), = r.verdicts.items()
+        tc = spread(cuts, 6)
+        for kind in ('bytes', 'bytearray', 'memoryview'):
+            tv, tbad = S.typed_run(sysname, data, tc, kind)
+            out['typed'].append({'kind': kind, 'same': tv == v0, 'verdict': repr(tv),
+                                 'expected': repr(v0), 'bad': tbad[:3], 'cuts': tc})
     out['ms'] = int((time.time() - t0) * 1000)
     return out
 
@@ -597,6 +608,17 @@ def run(ctx):
                       'detail': f['detail']},
                      dict(base, kind=f['inv'], paths=[f['path']]),
                      sigs=[] if f['inv'].startswith('I1') else sigs)
+        for t in r.get('typed', []):
+            rep.count('typed_runs')
+            rep.count('traces_validated_against_impl')
+            if not t['same'] or t['bad']:
+                rep.fail('I8-chunk-container:%s:%s' % (t['kind'], r['system']),
+                         {'image': im.name, 'system': r['system'], 'chunks_as': t['kind'],
+                          'verdict': t['verdict'], 'verdict_with_bytes_chunks': t['expected'],
+                          'region_problems': t['bad']},
+                         dict(base, kind='I8', chunk_kind=t['kind'], cuts=t['cuts'],
+                              expected=t['expected']),
+                         sigs=sigs)
         vs = r['verdicts']
         key = (r['idx'], r['system'])
         verdict_sets.setdefault(key, {})[r['mode']] = {repr(v) for v, _ in vs}
@@ -667,6 +689,11 @@ def replay(payload):
         got = _interleaved(system, da, ca, db, cb, tuple(payload['order']))
         return {'violates': got != [sa, sb], 'alone': [repr(sa), repr(sb)],
                 'interleaved': [repr(g) for g in got]}
+    if payload.get('kind') == 'I8':
+        data = unpack(payload['image'])
+        tv, tbad = S.typed_run(payload['system'], data, payload['cuts'], payload['chunk_kind'])
+        return {'violates': repr(tv) != payload['expected'] or bool(tbad),
+                'verdict': repr(tv), 'expected': payload['expected'], 'region_problems': tbad[:3]}
     if payload.get('mini'):
         system = MiniSystem()
         data = bytes.fromhex(payload['data_hex'])
